@@ -432,6 +432,14 @@ def sites_of(prog, f, miss_raises, proto=frozenset()):
                 f.module, n.func) == 'ext:ast.literal_eval':
             out.append((n, 'ast.literal_eval(%s)' % U(n.args[0])[:30],
                         dict(LITERAL_EVAL)))
+        elif isinstance(n, ast.Call) and (prog.resolve(
+                f.module, n.func) or '') in (
+                    'ext:hmac.compare_digest',
+                    'ext:secrets.compare_digest'):
+            # documented: both arguments str (ASCII only) or bytes-like;
+            # TypeError otherwise - a non-ASCII policy or credential text
+            out.append((n, 'constant-time comparison %s' % U(n)[:50],
+                        {'builtin:TypeError': ORDINARY}))
         elif isinstance(n, ast.Subscript) and isinstance(n.ctx, ast.Load):
             if isinstance(n.slice, ast.Slice):
                 continue
@@ -628,6 +636,12 @@ def check(ctx):
     # ... and the debug-only branch can fail in no way a caller sees: its
     # serialisation of target and credentials is caught broadly (= C07.DEBUG)
     ctx.borrow('C14.SURFACE', c07.check_debug, only=['C07.DEBUG'])
+    # an unresolvable placeholder denies: the role check's decision depends
+    # on nothing but the substituted name and the roles held (C04.MEMBER /
+    # C04.SUBST) - a shortcut around the substitution compares raw template
+    # text instead
+    from . import c04 as _c04
+    ctx.borrow_soft('C14.DENY', _c04.check, only=['C04.MEMBER', 'C04.SUBST'])
     # ... including the documented InvalidContextObject for credentials that
     # are neither a context nor a mutable mapping (= C08.CREDS)
     from . import c08
